@@ -45,6 +45,7 @@ fn net_cfg(sim: &SimParams) -> tokio_net::Config {
         latency_max_us: sim.latency_max_ns.map(|n| (n / 1000).max(50)).unwrap_or(200),
         rx_capacity: 256 * 1024,
         short_read_permille: sim.short_read_permille,
+        short_write_permille: sim.short_write_permille,
         default_seg: sim.default_seg.as_deref().map(parse_seg).unwrap_or(Seg::Whole),
     }
 }
@@ -176,6 +177,10 @@ fn build_app(cors: &str) -> (App<HState>, Arc<HState>) {
         .with_route("/big", |req: Request, st: Arc<HState>| async move {
             note(&req, &st);
             Response::new(StatusCode::OK, c01::big_body())
+        })
+        .with_route("/huge", |req: Request, st: Arc<HState>| async move {
+            note(&req, &st);
+            Response::new(StatusCode::OK, c01::huge_body())
         })
         .with_route("/panic", |req: Request, st: Arc<HState>| async move {
             note(&req, &st);
